@@ -136,6 +136,7 @@ type fsys struct {
 	lastPub cid.Cid
 	npub    int
 	lastErr error // the last non-nil error an MFS call returned
+	growGap bool  // the last truncate grew a file to Size()==n but its DAG holds fewer bytes (finding C19-4)
 }
 
 func newFS(c config) (*fsys, error) {
@@ -283,7 +284,26 @@ func (f *fsys) exec(o *op, st *vh.Stats) (string, error) {
 			fd.Close()
 			return "", fmt.Errorf("truncate: %w", err)
 		}
-		return f.errOut(fd.Close()), nil
+		before, _ := fi.Size()
+		cerr := fd.Close()
+		// Go-side consistency oracle (no MFS state involved): the recorded size of the
+		// file's node against the bytes its DAG actually holds
+		if cerr == nil {
+			if nd, err := fi.GetNode(); err == nil {
+				sz, _ := fi.Size()
+				if r, err := uio.NewDagReader(f.ctx, nd, f.dserv); err == nil {
+					b, _ := io.ReadAll(r)
+					if int64(len(b)) != sz {
+						if o.Kind == "trunc" && o.N > before && sz == o.N && int64(len(b)) < sz {
+							f.growGap = true
+						} else {
+							st.Violate(fmt.Sprintf("after %s the file records size %d but its DAG holds %d bytes", o.Kind, sz, len(b)), "", o)
+						}
+					}
+				}
+			}
+		}
+		return f.errOut(cerr), nil
 	case "mv":
 		dst := o.Q.str()
 		if o.Slash && len(o.Q) > 0 {
@@ -710,6 +730,9 @@ func corpus() [][]*op {
 		// C19-3 (MaxLinks=2 configuration): touch rebuilds the HAMT root from its node; the next sync fails
 		{mustOp("create", path{a}), mustOp("create", path{f}), mustOp("create", path{gg}), mustOp("flush", root), num("touch", root, 1001),
 			wr(path{f}, "hello", false), mustOp("flush", root)},
+		// C19-4 (CIDv1 configurations): raw-leaf file, touch wraps it into an inline-data leaf, grow-truncate
+		{mustOp("create", path{b}), func() *op { o := num("trunc", path{b}, 4); o.Sync = true; return o }(), num("touch", path{b}, 1001),
+			num("trunc", path{b}, 9), mustOp("stat", path{b}), mustOp("read", path{b}), mustOp("flush", root)},
 		// enough entries for the HAMT configurations, removal back below the threshold
 		{mk(path{a}, false), mustOp("create", path{a, a}), mustOp("create", path{a, b}), mustOp("create", path{a, x}), mustOp("create", path{a, y}),
 			mk(path{a, f}, false), mustOp("create", path{a, f, gg}), wr(path{a, f, gg}, "deep", false), mustOp("list", path{a}), mustOp("flush", path{a}),
@@ -720,7 +743,7 @@ func corpus() [][]*op {
 
 func TestC19(t *testing.T) {
 	e := vh.Load(t)
-	st := vh.NewStats("operation sequences (corpus of 10 hand-written histories incl. the finding witnesses, then generated ones of " +
+	st := vh.NewStats("operation sequences (corpus of 11 hand-written histories incl. the finding witnesses, then generated ones of " +
 		"length 4..30 over the names a,b,x,y,f,g at depth <= 3, aimed at existing paths by a shadow tree) run on a fresh MFS root in " +
 		"4 configurations (CIDv0, CIDv1+raw leaves, MaxLinks=2 HAMT, 64-byte HAMT threshold + 4-byte chunks); every history ends with " +
 		"FlushPath(/) whose DAG is read back with the UnixFS readers; non-trivial = at least 6 operations, at least one successful mv " +
@@ -772,6 +795,15 @@ func TestC19(t *testing.T) {
 				st.Violate("an MFS operation failed with 'BasicDirectory: cannot add child: maxLinks reached' (HAMT directory reloaded from its node, then converted back to a basic directory above MaxLinks)",
 					"C19-3", map[string]any{"config": cfg.Name, "ops": hist})
 				st.Count("cut-short-by-C19-3")
+				break
+			}
+			if f.growGap {
+				// finding C19-4 (cause in ipld/unixfs/mod): cut the history before this operation
+				o.Out = "grow-truncate: recorded size > bytes in the DAG"
+				hist = append(hist, o)
+				st.Violate("Truncate(n) growing a file whose node is a leaf with inline data (a raw-leaf file after chmod/touch) records size n but the DAG holds fewer bytes",
+					"C19-4", map[string]any{"config": cfg.Name, "ops": hist})
+				st.Count("cut-short-by-C19-4")
 				break
 			}
 			if err != nil {
